@@ -67,6 +67,35 @@ func runC19(r *vf.Run) {
 		wf{"r1001", func() *gen.CSVFile { return gen.CSVWithValues(1001, []int{1001, 2, 500}) }},
 		wf{"r2001", func() *gen.CSVFile { return gen.CSVWithValues(2001, []int{1500, 7}) }},
 		wf{"r20001-verbose", func() *gen.CSVFile { return gen.CSVWithValues(20001, []int{9000, 7, 2}) }},
+		wf{"wide-40-columns", func() *gen.CSVFile {
+			cards := make([]int, 40)
+			for i := range cards {
+				cards[i] = 2 + i%5
+			}
+			return gen.CSVWithValues(700, cards)
+		}},
+		wf{"bom-first", func() *gen.CSVFile {
+			// the file starts with a UTF-8 byte order mark glued to the first (bare) header field: it is a character
+			// outside a-z like any other, so the column is "_name"
+			c := &gen.CSVFile{Header: []string{"\ufeffName", "City", " Zip"}, Columns: []string{"_name", "city", "_zip"}}
+			for i := 0; i < 40; i++ {
+				c.Records = append(c.Records, []string{fmt.Sprintf("n%d", i%7), fmt.Sprintf(" c%d", i%3), fmt.Sprintf("%d ", i%5)})
+			}
+			c.RenderStyle("minimal", "\n")
+			return c
+		}},
+		wf{"all-fields-empty", func() *gen.CSVFile {
+			c := &gen.CSVFile{Header: []string{"a", "b", "c"}, Columns: []string{"a", "b", "c"}}
+			for i := 0; i < 30; i++ {
+				rec := []string{"", "", ""}
+				if i%7 == 3 {
+					rec = []string{"x", "", " y"}
+				}
+				c.Records = append(c.Records, rec)
+			}
+			c.Render()
+			return c
+		}},
 	)
 	lrng := r.RNG("list")
 	for i := 0; i < r.Pick(50, 2000); i++ {
@@ -212,6 +241,7 @@ func runC19(r *vf.Run) {
 		{"unterminated-quote-in-header", `"a,b` + "\n"},
 		{"empty-file", ""},
 		{"quote-after-field", strings.Join(lines[:3], "") + `"x"y,"z","w"` + "\n"},
+		{"blank-before-quoted-field", strings.Join(lines[:4], "") + blankBeforeQuote(len(base.Header)) + strings.Join(lines[4:], "")},
 	}
 	validOut, _ := os.ReadFile(func() string {
 		p := filepath.Join(dir, "pre-valid.updog")
@@ -404,4 +434,18 @@ func c19RetryAfterKill(r *vf.Run, dir string) {
 			})
 		}
 	}
+}
+
+// blankBeforeQuote renders a record of n fields in which a quoted field is preceded by a blank (`a, "b"`): a bare
+// quote inside an unquoted field, which encoding/csv rejects unless told to trim leading space.
+func blankBeforeQuote(n int) string {
+	f := make([]string, n)
+	for i := range f {
+		f[i] = fmt.Sprintf("v%d", i)
+	}
+	if n == 1 {
+		return ` "v0"` + "\n"
+	}
+	f[1] = ` "quoted after a blank"`
+	return strings.Join(f, ",") + "\n"
 }
